@@ -1,6 +1,6 @@
 SPECIFICATION Spec
 CONSTANTS
-  Contents <- C5
+  Contents <- C3
   BoundModes <- BM1
   MenuKind = "focus"
   MaxDepth = 4
